@@ -407,6 +407,17 @@ m('skiplist-iterator-end-key-keeps-rlatch', ['C17'], SLI, """			itr.bpm.UnpinPag
 			break""", ['C17-R4 [(*container/skip_list.SkipListIterator).initRIDList:hand-over-latches]'])
 m('skiplist-iterator-hop-keeps-prev-rlatch', ['C17'], SLI, """			prevNode.RemoveRLatchRecord(-10000)
 			prevNode.RUnlatch()""", """			prevNode.RemoveRLatchRecord(-10000)""", ['C17-R4 [(*container/skip_list.SkipListIterator).initRIDList:hand-over-latches]'])
+m('skiplist-iterator-found-skips-start-key', ['C17'], SLI, """			curPageSlotIdx = slotIdx - 1
+""", """			curPageSlotIdx = slotIdx
+""", ['C17-R5 [initRIDList:first-entry-read:found]'])
+m('skiplist-iterator-notfound-includes-smaller-key', ['C17'], SLI, """			// because slotIdx is nearest smaller key of rangeStartKey
+			curPageSlotIdx = slotIdx
+""", """			// because slotIdx is nearest smaller key of rangeStartKey
+			curPageSlotIdx = slotIdx - 1
+""", ['C17-R5 [initRIDList:first-entry-read:not-found]'])
+m('skiplist-find-entry-returns-other-index', ['C17'], SLB, """				return true, node.GetEntry(int(midIdx), key.ValueType()), midIdx
+""", """				return true, node.GetEntry(int(midIdx), key.ValueType()), lowIdx
+""", ['C17-R5 [FindEntryByKey:found-index-is-the-equal-slot'])
 # drop the one that needs a helper that does not exist
 M = [x for x in M if x['id'] != 'insert-executor-unlocks-early']
 os.chdir(os.path.dirname(os.path.abspath(__file__)) + '/..')
